@@ -66,9 +66,9 @@ class ExportSim:
         for k in range(rng.choice([1, 1, 2, 3])):
             fmt = rng.choice(FORMATS)
             if fmt == 'shapefile':
-                target = rng.choice(['str', 'path', 'parts_paths', 'parts_handles'])
+                target = rng.choice(['str', 'path', 'parts_paths', 'parts_handles', 'cli'])
             else:
-                target = rng.choice(['str', 'path'])
+                target = rng.choice(['str', 'path', 'cli'])
             faults = []
             if rng.random() < 0.45:
                 seam = rng.choice(['fwrite', 'fwrite', 'fwrite', 'fclose', 'fopen'])
@@ -243,7 +243,17 @@ def _export_lifetime(ctx, world_spec, step, scratch):
 
     pathlib.Path.open = path_open
     world = worldgen.World(world_spec)
-    ds = common.open_world(world, scratch)
+    cli_input = None
+    if step['target'] == 'cli':
+        # the command line path: `emsarray export-geometry` opens the file itself; the reference cells are those of
+        # the same file opened the library way
+        import emsarray
+        cli_input = os.path.join(scratch, 'cli_input.nc')
+        if not os.path.exists(cli_input):
+            common.write_world_file(world, cli_input)
+        ds = emsarray.open_dataset(cli_input)
+    else:
+        ds = common.open_world(world, scratch)
     try:
         polys = observe.polygons_as_lists(ds.ems.polygons)
         idx = [(i, json.loads(json.dumps(ds.ems.wind_index(i)))) for i, p in enumerate(polys) if p is not None]
@@ -257,7 +267,22 @@ def _export_lifetime(ctx, world_spec, step, scratch):
     acked = False
     handles = []
     try:
-        if fmt == 'geojson':
+        if target == 'cli':
+            import sys
+
+            import emsarray.cli
+            old = sys.stdout, sys.stderr
+            try:
+                with open(os.path.join(scratch, 'cli.stderr'), 'w') as ferr:
+                    sys.stdout = sys.stderr = ferr
+                    try:
+                        emsarray.cli.main(['export-geometry', cli_input, path, '-f', fmt])
+                    except SystemExit as e:
+                        if e.code not in (0, None):
+                            raise OSError(f'emsarray export-geometry exited with status {e.code}') from None
+            finally:
+                sys.stdout, sys.stderr = old
+        elif fmt == 'geojson':
             geometry.write_geojson(ds, path if target == 'str' else pathlib.Path(path))
         elif fmt == 'wkt':
             geometry.write_wkt(ds, path if target == 'str' else pathlib.Path(path))
